@@ -8,6 +8,7 @@ import (
 	"golang.org/x/tools/go/ssa"
 
 	"lbcheck/eng"
+	"lbcheck/ir"
 )
 
 // Rules for the round-9 misses.
@@ -1012,4 +1013,42 @@ func ruleHWCheckpointIsReplacedAtomically(c *eng.Ctx) {
 	aw := eng.CallsIn(fn, "github.com/natefinch/atomic.WriteFile")
 	raw := eng.CallsIn(fn, "os.WriteFile", "os.Create", "os.OpenFile", "io/ioutil.WriteFile", "os.File.Write", "os.File.WriteString", "os.File.WriteAt")
 	c.Check(len(aw) == 1 && len(raw) == 0, "checkpointHW replaces the high-watermark checkpoint atomically", c.P.Pos(fn.Pos()), "atomic.WriteFile and no other write", "checkpointHW does not replace its checkpoint as a whole: written in place, a shorter value leaves the tail of a longer earlier one behind (\"-1\" then \"5\" is read back as 51), so after a restart the log takes uncommitted messages for committed and hands them to subscribers")
+}
+
+// ruleACursorStructIsDecodedIntoOnce (R11.3 extension): the generated Unmarshal of proto.Cursor does not reset its receiver, and
+// proto3 leaves zero values (offset 0, partition 0) off the wire. A struct that has been decoded into successfully is not
+// decoded into again: the second cursor would inherit the first one's offset wherever its own is 0.
+func ruleACursorStructIsDecodedIntoOnce(c *eng.Ctx) {
+	p := c.P
+	n := 0
+	for _, fn := range p.Funcs {
+		if !p.IsModuleFunc(fn) || fn.Pkg == nil || fn.Pkg.Pkg.Path() != ir.ModulePath+"/server" {
+			continue
+		}
+		decs := eng.CallsIn(fn, "server/protocol.Cursor.Unmarshal")
+		for _, d := range decs {
+			n++
+			d := d
+			recv := eng.Strip(d.Common().Args[0])
+			ok := eng.CmpEdges(fn, eng.Same(d.Value()), eng.NilConst, eng.EQ)
+			if len(ok) == 0 {
+				continue
+			}
+			q := &eng.PathQuery{Fn: fn, FromEdges: ok, Target: func(x ssa.Instruction) bool {
+				ci, isCall := x.(ssa.CallInstruction)
+				if !isCall || eng.CalleeRef(ci.Common()) != "server/protocol.Cursor.Unmarshal" {
+					return false
+				}
+				return eng.Strip(ci.Common().Args[0]) == recv
+			}, CutInstr: func(x ssa.Instruction) bool {
+				ci, isCall := x.(ssa.CallInstruction)
+				return isCall && eng.CalleeRef(ci.Common()) == "server/protocol.Cursor.Reset" && eng.Strip(ci.Common().Args[0]) == recv
+			}}
+			w := q.Find()
+			c.Check(w == nil, "a Cursor struct that was decoded into is not decoded into again ("+fn.Name()+")", c.Pos(d.(ssa.Instruction)), "one successful Unmarshal per struct (or Reset in between)", fn.Name()+" decodes a second cursor into a struct that already holds one ("+w.String()+"): Unmarshal does not reset its receiver and a zero offset is not on the wire, so a cursor stored at offset 0 takes over the offset of the cursor decoded before it — FetchCursor answers (and caches) another consumer's position")
+		}
+	}
+	if n == 0 {
+		c.Unresolved("a proto.Cursor Unmarshal call in package server")
+	}
 }
